@@ -145,8 +145,12 @@ type vfWriteFault struct {
 	// Hold != nil: the write that would carry the byte with absolute offset HoldAtByte accepts the bytes
 	// before it, closes Held and blocks (a peer that stopped reading) until Hold is closed or the
 	// connection is closed; then it goes on normally. Write deadlines are ignored while held.
-	HoldAtByte int64
-	Hold       chan struct{}
+	// DeadlineErr != nil: SetWriteDeadline reports this error once DeadlineErrAtByte bytes have been written
+	// (a socket that was closed underneath, a descriptor gone bad)
+	DeadlineErr       error
+	DeadlineErrAtByte int64
+	HoldAtByte        int64
+	Hold              chan struct{}
 	Held       chan struct{}
 	heldOnce   sync.Once
 }
@@ -347,6 +351,12 @@ func (c *vfMemConn) SetReadDeadline(t time.Time) error {
 }
 
 func (c *vfMemConn) SetWriteDeadline(t time.Time) error {
+	c.fmu.Lock()
+	f, n := c.fault, int64(len(c.wrote))
+	c.fmu.Unlock()
+	if f != nil && f.DeadlineErr != nil && !t.IsZero() && n >= f.DeadlineErrAtByte {
+		return f.DeadlineErr
+	}
 	c.out.mu.Lock()
 	c.out.wdead = t
 	c.out.cond.Broadcast()
